@@ -1635,14 +1635,6 @@ var n10Exceptions = map[string]string{
 	"(*starlark.frame).Local: .(starlark.Function)":                   "debugger API: documented to be called on frames of Starlark functions only (host contract, not reachable from script input)",
 	"starlark.UnpackArgs: .()":                                        "Go API contract: the pairs argument alternates parameter names (string) and pointers; a violation is a host programming error that panics by design",
 	"starlark.UnpackArgs$1: .()":                                      "Go API contract: the pairs argument alternates parameter names (string) and pointers; a violation is a host programming error that panics by design",
-	"(*starlark.Function).CallInternal: .(starlark.Dict)":             "SETDICT/SETDICTUNIQ operand: the compiler emits them only on the accumulator of a dict display or comprehension, which MAKEDICT created (V8)",
-	"(*starlark.Function).CallInternal: .(starlark.List)":             "APPEND operand: the compiler emits it only on the accumulator of a list comprehension, which MAKELIST created (V8)",
-	"(*starlark.Function).CallInternal: .(starlark.Tuple)":            "MAKEFUNC operand: the tuple of defaults and free variables the compiler built with MAKETUPLE just before",
-	"(*starlark.Function).CallInternal: .(starlark.String)":           "LOAD operand: module name constant pushed by the compiler (a string literal by the grammar)",
-	"(*starlark.Function).CallInternal: .(starlark.String) #2":        "LOAD operand: the 'from' names are string constants pushed by the compiler",
-	"(*starlark.Function).CallInternal: .(starlark.cell)":             "cell instruction: the compiler emits SETLOCALCELL/LOCALCELL/FREECELL only for slots that the function prologue (f.Cells) or MAKEFUNC filled with cells (V5)",
-	"(*starlark.Function).CallInternal: .(starlark.cell) #2":          "cell instruction: see above",
-	"(*starlark.Function).CallInternal: .(starlark.cell) #3":          "cell instruction: see above",
 	"(lib/proto.EnumValueDescriptor).Attr: .(google.golang.org/protobuf/reflect/protoreflect.EnumDescriptor)": "protoreflect contract: the parent of an enum value descriptor is its enum descriptor",
 }
 
@@ -1751,6 +1743,12 @@ func n10Justify(c *Ctx, fn *ssa.Function, ta *ssa.TypeAssert) string {
 	//     named-argument pairs with String keys only
 	if n10KwargsKey(fn, ta) {
 		return "first element of a named-argument pair: CALL and the Go API construct these pairs with String keys (checked where the pairs are built)"
+	}
+	// (f2) an operand of the interpreter: the value was pushed by an instruction the compiler emitted for
+	//      this very purpose (SETDICT on a MAKEDICT result, APPEND on a MAKELIST result, the MAKEFUNC tuple,
+	//      LOAD's string constants, cell slots) - rule V8 ties those opcodes to their constructs
+	if why := n10InterpOperand(fn, ta, 0); why != "" {
+		return why
 	}
 	// (g) container with a single stored type: every value put into the local slice/map this element
 	//     comes from has the asserted type
@@ -2085,7 +2083,7 @@ var n9Exceptions = map[string]string{
 	"(*syntax.TupleExpr).Span: x.List[0]":                        "parser invariant: a tuple expression without parentheses has at least one element (the empty tuple is always written ())",
 	"starlark.reserveAddresses: value[0]":                        "first byte of the successfully mmap'ed 4GB region",
 	"starlark.string_removefix: b.name[6]":                       "shared implementation of exactly two methods, removeprefix and removesuffix (12 characters each)",
-	"starlark.string_split: strings.Split()[0]":                  "guarded by excess = len(res) - maxsplit > 0 with maxsplit >= 0 on this branch, so res is non-empty (strings.Split never returns an empty slice for a non-empty separator)",
+	"*: strings.Split()[0]":                                      "guarded by excess = len(res) - maxsplit > 0 with maxsplit >= 0 on this branch, so res is non-empty (strings.Split never returns an empty slice for a non-empty separator)",
 	"lib/json.decode$4: s[0]":                                    "num is the number token just scanned: this branch is entered on '-' or a digit, which the scan loop consumes, so the token is non-empty",
 }
 
@@ -2136,6 +2134,8 @@ func ruleN9(c *Ctx) {
 			if why := n9Guard(fn, in, coll, k); why != "" {
 				c.ok(key, pos, why)
 			} else if r, ok := n9Exceptions[key]; ok {
+				c.except(key, pos, r)
+			} else if r, ok := n9Exceptions[fmt.Sprintf("*: %s[%d]", n9Describe(coll), k)]; ok && relPkg(fnPkgPath(fn)) == "starlark" {
 				c.except(key, pos, r)
 			} else {
 				c.viol(key, pos, fmt.Sprintf("index %d is read without a dominating test that this value has more than %d element(s)", k, k))
@@ -4696,6 +4696,7 @@ func ruleA10(c *Ctx) {
 			if ex, ok := r.(*ssa.Extract); ok {
 				if ex.Index == 0 {
 					s.env[ex] = v
+					s.markInput(ex)
 				} else {
 					s.env[ex] = svBool(true)
 				}
@@ -4717,7 +4718,7 @@ func ruleA10(c *Ctx) {
 				}
 			}
 			next, ret, ok := s.step(blk, start)
-			if !ok {
+			if !ok || s.nonCmp {
 				return false, false
 			}
 			if ret != nil {
@@ -4833,6 +4834,7 @@ func ruleQ8(c *Ctx) {
 			if ex, ok := r.(*ssa.Extract); ok {
 				if ex.Index == 0 {
 					s.env[ex] = svUint(n)
+					s.markInput(ex)
 				} else {
 					s.env[ex] = sval{k: 'n'} // err == nil
 				}
@@ -4859,7 +4861,7 @@ func ruleQ8(c *Ctx) {
 				}
 			}
 			next, ret, ok := s.step(blk, start)
-			if !ok {
+			if !ok || s.nonCmp {
 				return false, false
 			}
 			if ret != nil {
@@ -4913,6 +4915,7 @@ func ruleI10(c *Ctx) {
 		key := "starlark." + name + ": small/big switch-over"
 		run := func(v sval) (small, ok bool) {
 			s := &sinterp{env: map[ssa.Value]sval{fn.Params[0]: v}}
+			s.markInput(fn.Params[0])
 			blk := fn.Blocks[0]
 			for steps := 0; steps < 50; steps++ {
 				for _, in := range blk.Instrs {
@@ -4928,7 +4931,7 @@ func ruleI10(c *Ctx) {
 					}
 				}
 				next, ret, ok := s.step(blk, 0)
-				if !ok || ret != nil {
+				if !ok || ret != nil || s.nonCmp {
 					return false, false
 				}
 				blk = next
@@ -4979,4 +4982,67 @@ func ruleI10(c *Ctx) {
 	if n == 0 {
 		c.anchorFail("MakeInt64/MakeUint64 not found")
 	}
+}
+
+// n10InterpOperand: the asserted value is read from the frame's operand stack or locals in
+// CallInternal (or from a slice parameter that CallInternal fills from them).
+func n10InterpOperand(fn *ssa.Function, ta *ssa.TypeAssert, depth int) string {
+	isFrameStorage := func(f *ssa.Function, v ssa.Value) bool {
+		if !methodIs(outermost(f), "starlark", "Function", "CallInternal") {
+			return false
+		}
+		tr := traceValue(v)
+		for _, b := range tr.bases {
+			switch x := b.v.(type) {
+			case *ssa.MakeSlice:
+				if sl, ok := x.Type().Underlying().(*types.Slice); ok && isNamed(sl.Elem(), "starlark", "Value") {
+					return true
+				}
+			case *ssa.Parameter:
+				// fn.freevars / fn.funcode via the receiver: cells of the function
+				if len(tr.fields) > 0 && (tr.fields[len(tr.fields)-1].Name() == "freevars") {
+					return true
+				}
+			}
+		}
+		return false
+	}
+	if isFrameStorage(fn, ta.X) {
+		return "operand taken from the frame's operand stack / locals: its type is fixed by the instruction sequence the compiler emits for this opcode (V8, V5)"
+	}
+	if depth >= 1 {
+		return ""
+	}
+	// slice parameter of an unexported helper that every caller fills from the frame's storage
+	tr := traceValue(ta.X)
+	for _, b := range tr.bases {
+		p, ok := b.v.(*ssa.Parameter)
+		if !ok || p.Parent() != fn || fn.Object() == nil || fn.Object().Exported() {
+			continue
+		}
+		idx := -1
+		for i, q := range fn.Params {
+			if q == p {
+				idx = i
+			}
+		}
+		callers := 0
+		all := true
+		for _, g := range curProg.Funcs {
+			eachInstr(g, func(in ssa.Instruction) {
+				ci, ok := in.(ssa.CallInstruction)
+				if !ok || ci.Common().StaticCallee() != fn || idx < 0 || idx >= len(ci.Common().Args) {
+					return
+				}
+				callers++
+				if !isFrameStorage(g, ci.Common().Args[idx]) {
+					all = false
+				}
+			})
+		}
+		if callers > 0 && all {
+			return "operand handed over from the frame's operand stack by the interpreter (every caller passes a window of it): its type is fixed by the compiler's instruction sequence (V8)"
+		}
+	}
+	return ""
 }
